@@ -147,6 +147,8 @@ def run_ob(tr):
         ob.save_json_snapshot(tr["snap_out"], pretty=(tr["id"] % 3 == 0))
         count("python_snapshots_written")
     # drain probe: sweep both sides, the trades expose the hidden queue order
+    if exp.get("drain") is None:
+        return  # (volumes too large for a sweep that stays a valid history)
     ob.enable_trading()
     n0 = len(st["trades"])
     clock[0] += 1
@@ -206,7 +208,7 @@ def env_call(env, c):
 
 
 def replay_env(tr):
-    env = core.StepEnv(tr["seed"], 0, tr["tick"], tr["step_size"])
+    env = core.StepEnv(tr["seed"], tr.get("start", 0), tr["tick"], tr["step_size"])
     calls = tr["calls"]
     before = None
     ret = exc = None
@@ -242,6 +244,8 @@ def run_env_c18(tr):
     if env_state(env2) != st:
         fail("python/stepenv/not-deterministic-in-seed", "two replays of the same calls with seed %r differ" % tr["seed"], tr)
     # drain probe through two more steps
+    if exp.get("drain") is None:
+        return
     env.enable_trading()
     n0 = len(st["trades"])
     env.place_order(True, env.ask_vol + 1, 9)
@@ -330,7 +334,7 @@ def numpy_replay(tr):
     for c in calls:
         if c[0] == "modify" or c[0] in ("enable", "disable") or (c[0] == "place" and (c[4] is None or c[4] % tr["tick"] != 0)):
             return None
-    env = core.StepEnvNumpy(tr["seed"], 0, tr["tick"], tr["step_size"])
+    env = core.StepEnvNumpy(tr["seed"], tr.get("start", 0), tr["tick"], tr["step_size"])
     i = 0
     use_instr = tr["id"] % 2 == 0
     while i < len(calls):
@@ -363,12 +367,65 @@ def numpy_replay(tr):
     return env
 
 
+MAXP = 2**32 - 1
+
+
+def recompute_named(orders, tick, trade_vol):
+    """the documented quantities recomputed from the order list alone (independent of the
+    core's own level functions): status 1 = active; tuple = (side, status, arr, end, vol, start_vol, price, trader, id)"""
+    bids = [o for o in orders if o[1] == 1 and o[0]]
+    asks = [o for o in orders if o[1] == 1 and not o[0]]
+    bp = max([o[6] for o in bids], default=0)
+    ap = min([o[6] for o in asks], default=MAXP)
+    named = {"trade_vol": trade_vol, "bid_price": bp, "ask_price": ap, "bid_vol": sum(o[4] for o in bids), "ask_vol": sum(o[4] for o in asks)}
+    for i in range(10):
+        pb, pa = bp - i * tick, ap + i * tick
+        lb = [o for o in bids if o[6] == pb] if pb >= 0 else []
+        la = [o for o in asks if o[6] == pa] if pa <= MAXP else []
+        named["bid_vol_%d" % i], named["n_bid_%d" % i] = sum(o[4] for o in lb), len(lb)
+        named["ask_vol_%d" % i], named["n_ask_%d" % i] = sum(o[4] for o in la), len(la)
+    named["bid_touch_vol"], named["bid_touch_orders"] = named["bid_vol_0"], named["n_bid_0"]
+    named["ask_touch_vol"], named["ask_touch_orders"] = named["ask_vol_0"], named["n_ask_0"]
+    return named
+
+
+def bulk_numpy_scenario():
+    """more than 65535 orders on one price level, volumes beyond 2^31, through StepEnvNumpy"""
+    tr = {"id": -1, "kind": "bulk", "seed": 3, "tick": 1, "calls": [["70000 bids of volume 1 at 50, 3 asks of 1e9 at 60, step, 2 asks of volume 2 at 50, step"]]}
+    env = core.StepEnvNumpy(3, 0, 1, 100000)
+    n = 70000
+    env.submit_limit_orders((np.ones(n, dtype=bool), np.ones(n, dtype=np.uint32), np.arange(n, dtype=np.uint32), np.full(n, 50, dtype=np.uint32)))
+    env.submit_limit_orders((np.zeros(3, dtype=bool), np.full(3, 1_000_000_000, dtype=np.uint32), np.array([7, 8, 9], dtype=np.uint32), np.full(3, 60, dtype=np.uint32)))
+    env.step()
+    for stepno in range(2):
+        orders = tl(env.get_orders())
+        named = recompute_named(orders, 1, tl(env.level_1_data())[0])
+        check_array("StepEnvNumpy.level_1_data", env.level_1_data(), L1_DOC, named, tr)
+        check_array("StepEnvNumpy.level_2_data", env.level_2_data(), L2_DOC, named, tr)
+        md = env.get_market_data()
+        for k in ("bid_vol", "ask_vol", "bid_vol_0", "ask_vol_0", "n_bid_0", "n_ask_0", "bid_price", "ask_price"):
+            if int(tl(md[k])[-1]) != named[k]:
+                fail("python/layout/StepEnvNumpy.get_market_data/series-%s" % k.rstrip("0123456789"), "bulk book: last entry of %r is %r but the order list gives %r" % (k, tl(md[k])[-1], named[k]), tr)
+        count("bulk_states_checked")
+        if stepno == 0:
+            env.submit_limit_orders((np.zeros(2, dtype=bool), np.full(2, 2, dtype=np.uint32), np.array([11, 12], dtype=np.uint32), np.full(2, 50, dtype=np.uint32)))
+            env.step()
+
+
 def run_env_c19(tr, dp):
     if tr["exp"]["exc"] is not None:
         return
     env, _, _, _ = replay_env(tr)
     exp = tr["exp"]["state"]
     named, hist = exp["named"], exp["history"]
+    # the documented quantities follow from the order list alone; what the Rust core reports for
+    # them must agree (a core whose level functions drift from its own orders is caught here)
+    named2 = recompute_named(tl(env.get_orders()), tr["tick"], named["trade_vol"])
+    for k, v in named2.items():
+        if named[k] != v:
+            fail("python/layout/documented-quantity-differs-from-order-list/%s" % k.rstrip("0123456789"), "%s: the core reports %r, the resting orders give %r" % (k, named[k], v), tr)
+            break
+    named = named2
     count("states_checked")
     if exp["asymmetric"]:
         count("asymmetric_states")
@@ -390,6 +447,14 @@ def run_env_c19(tr, dp):
 def main():
     n = calls = 0
     dp = load_data_processing() if mode == "c19" else None
+    if mode == "c19" and SHARD == 0:
+        try:
+            bulk_numpy_scenario()
+            n += 1
+        except BaseException as e:  # noqa: BLE001
+            if isinstance(e, (KeyboardInterrupt, SystemExit)):
+                raise
+            fail("python/abort/%s" % type(e).__name__, "the bulk scenario raised %r" % (e,), {"id": -1, "kind": "bulk", "calls": [["bulk"]]})
     with open(work + "/traces.jsonl") as f:
         for ln, line in enumerate(f):
             if ln % SHARDS != SHARD:
